@@ -130,8 +130,11 @@ def judge(opc, op, a, b, got, exp, tag):
                 return [('%s|%s|%s' % (opc, tag, X.cls(got)), 'expected text, got %r' % (got,))]
             return []
         return []
-    if X.same(got, exp):
+    # + - * / are single IEEE operations: the result is asserted bit for bit (a power may differ in the last place)
+    if X.same(got, exp, 0.0 if op in ('+', '-', '*', '/') else 1e-12):
         return []
+    if X.same(got, exp):
+        return [('%s|%s|last-place' % (opc, tag), 'got %r, expected exactly %r' % (got, exp))]
     return [('%s|%s|%s' % (opc, tag, X.cls(got)), 'got %r, expected %r' % (got, exp))]
 
 
@@ -198,6 +201,8 @@ def check_unary(case):
     fails = []
     if not X.same(got, exp):
         fails.append(('%s|%s|%s' % (op, tag, X.cls(got)), '%s: got %r, expected %r' % (text, got, exp)))
+    elif not X.same(got, exp, 0.0):  # x% is one IEEE division by 100, a sign change is exact
+        fails.append(('%s|%s|last-place' % (op, tag), '%s: got %r, expected exactly %r' % (text, got, exp)))
     return R(fails, nt=X.kind(a) != 'num' or isinstance(exp, Err), labels=[sp, 'rule:' + tag])
 
 
@@ -245,6 +250,14 @@ def check_order(case):
 
 
 def check_rand(case):
+    if case['op'] in UN:
+        # unary operators over random floats (the percent sign is an exact IEEE division by 100)
+        a = float(case['a'])
+        fails = []
+        for sp in ('cell', 'func', 'lit'):
+            r = check_unary({'op': case['op'], 'a': enc(a), 'sp': sp})
+            fails += r['fails']
+        return R(fails, nt=abs(a) > 2 ** 53 or (a and abs(a) < 1e-300) or a != int(a), n=3, labels=['rand', 'rand-unary'])
     op, a, b = case['op'], float(case['a']), float(case['b'])
     exp, tag = X.binary(op, a, b)
     fails = []
@@ -307,7 +320,7 @@ def _rand(tier):
         st.integers(-2 ** 62, 2 ** 62).map(float),
         st.sampled_from([1e308, -1e308, 1.7976931348623157e308, 5e-324, 2.0 ** 53, 2.0 ** 53 + 2, 0.1, 0.2, 0.3]),
         st.floats(-1000, 1000).map(lambda x: round(x, 2)))
-    ops = st.sampled_from(['+', '-', '*', '/', '^', '=', '<>', '<', '>', '<=', '>='])
+    ops = st.sampled_from(['+', '-', '*', '/', '^', '=', '<>', '<', '>', '<=', '>=', '%', '%', 'u-', 'u+'])
     return st.builds(lambda op, a, b: {'k': 'rand', 'op': op, 'a': a, 'b': b}, ops, fl, fl)
 
 
